@@ -4,6 +4,7 @@ import (
 	"crypto/rand"
 	"fmt"
 	"io"
+	"net"
 	"os"
 	"sync/atomic"
 	"time"
@@ -195,3 +196,15 @@ var Resets = map[string]func(){}
 
 // RegisterReset registers a named reset function.
 func RegisterReset(name string, f func()) { Resets[name] = f }
+
+// DialHook, when set by a scenario, answers (*net.Dialer).Dial calls of the code
+// under test (gmtls.Dial / DialWithDialer) with a simulated connection.
+var DialHook func(network, addr string) (net.Conn, error)
+
+// NetDial replaces d.Dial(network, addr) in instrumented code.
+func NetDial(d *net.Dialer, network, addr string) (net.Conn, error) {
+	if DialHook != nil {
+		return DialHook(network, addr)
+	}
+	return d.Dial(network, addr)
+}
